@@ -172,6 +172,7 @@ func (t *fnTrans) builtin(b *ssa.Builtin, c *ssa.CallCommon, res ssa.Value, pos 
 }
 
 func (t *fnTrans) appendCall(c *ssa.CallCommon, pos token.Pos) Val {
+	t.S.ixArith = true
 	st := c.Args[0].Type().Underlying().(*types.Slice)
 	ev := t.elemsVar(st.Elem())
 	s := t.term(t.val(c.Args[0]))
@@ -218,6 +219,7 @@ func (t *fnTrans) appendCall(c *ssa.CallCommon, pos token.Pos) Val {
 }
 
 func (t *fnTrans) copyCall(c *ssa.CallCommon, pos token.Pos) Val {
+	t.S.ixArith = true
 	dt := c.Args[0].Type().Underlying().(*types.Slice)
 	ev := t.elemsVar(dt.Elem())
 	d := t.term(t.val(c.Args[0]))
@@ -743,7 +745,9 @@ func (t *fnTrans) applyContract(fc *FuncContract, key string, sig *types.Signatu
 		pkg = t.fn.Pkg.Pkg
 	}
 	pre := t.cur.clone()
-	env := &Env{t: t, st: t.cur, old: pre, vars: map[string]bound{}, pkg: pkg}
+	t.callSeq++
+	snapPrefix := fmt.Sprintf("call%d:", t.callSeq)
+	env := &Env{t: t, st: t.cur, old: pre, vars: map[string]bound{}, pkg: pkg, snapPrefix: snapPrefix}
 	var names []string
 	hasRecv := sig.Recv() != nil && fn != nil
 	if fc.Extern {
@@ -882,7 +886,7 @@ func (t *fnTrans) applyContract(fc *FuncContract, key string, sig *types.Signatu
 		t.set("alloc", na)
 	}
 	res := t.resultVal(resTy, "ret")
-	post := &Env{t: t, st: t.cur, old: pre, vars: map[string]bound{}, pkg: pkg}
+	post := &Env{t: t, st: t.cur, old: pre, vars: map[string]bound{}, pkg: pkg, snapPrefix: snapPrefix}
 	for k, b := range env.vars {
 		post.vars[k] = b
 	}
@@ -955,7 +959,15 @@ func (t *fnTrans) applyOnReturn(fc *FuncContract, post *Env) {
 		}
 		sv := t.ghostVar(g, post.pkgOf(g.Pkg))
 		pe := *post
-		pe.st = t.cur
+		// in the right-hand side ghost variables denote their values before the call (and before
+		// earlier onreturn clauses of the same call are NOT visible either: simultaneous update)
+		mixed := t.cur.clone()
+		for name, v := range t.vars {
+			if v.Kind == "ghost" {
+				mixed.m[name] = t.get(post.old, name)
+			}
+		}
+		pe.st = mixed
 		v, vt := pe.eval(gs.Val)
 		nv := pe.coerce(v, vt, sv.Typ)
 		if gs.Cond != nil {
